@@ -271,3 +271,206 @@ func Verif_C10_X3_HeaderArithmetic() {
 	vsym.Assert(err == nil && h2.ExpireAt == h.ExpireAt && h2.ValueVersion == h.ValueVersion && h2.Ver == h.Ver, "header round trip")
 	vsym.Reach("end")
 }
+
+// X4 (collections): after its expiry second, an expired collection is indistinguishable from an absent one
+// for any follow-up command (PERSIST, EXPIRE, remove, clear, pop, incr ...), and a later re-creation never
+// shows members of the predecessor.
+func Verif_C10_X4_Coll_ExpiredEqualsAbsent() {
+	a, b := vOpenDB(), vOpenDB()
+	defer a.done()
+	defer b.done()
+	key := []byte("t:k")
+	oldm := vsym.Bytes("oldmember", 1)
+	newm := vsym.Bytes("newmember", 1)
+	d, ts := c10Expired()
+	typ := vsym.Choose("type", 4)
+	op := vsym.Choose("op", 5)
+	var n int64
+	var err error
+	// pre-state on a only: one member, then EXPIRE
+	switch typ {
+	case 0:
+		_, err = a.db.HSet(c10T0, false, key, oldm, []byte{'1'})
+		vsym.Assert(err == nil, "pre HSET")
+		n, err = a.db.HExpire(c10T0, key, d)
+	case 1:
+		_, err = a.db.SAdd(c10T0, key, oldm)
+		vsym.Assert(err == nil, "pre SADD")
+		n, err = a.db.SExpire(c10T0, key, d)
+	case 2:
+		_, err = a.db.RPush(c10T0, key, oldm)
+		vsym.Assert(err == nil, "pre RPUSH")
+		n, err = a.db.LExpire(c10T0, key, d)
+	case 3:
+		_, err = a.db.ZAdd(c10T0, key, common.ScorePair{Score: 1, Member: oldm})
+		vsym.Assert(err == nil, "pre ZADD")
+		n, err = a.db.ZExpire(c10T0, key, d)
+	}
+	vsym.Assert(err == nil && n == 1, "pre EXPIRE")
+	// the follow-up command at a log time at/after the expiry second, on the expired (a) and on the absent (b) collection
+	step := func(v *vDB) (int64, []byte, error) {
+		db := v.db
+		switch typ {
+		case 0:
+			switch op {
+			case 0:
+				r, e := db.HPersist(ts, key)
+				return r, nil, e
+			case 1:
+				r, e := db.HExpire(ts, key, 100)
+				return r, nil, e
+			case 2:
+				r, e := db.HDel(ts, key, oldm)
+				return r, nil, e
+			case 3:
+				r, e := db.HClear(ts, key)
+				return r, nil, e
+			default:
+				r, e := db.HIncrBy(ts, key, oldm, 5)
+				return r, nil, e
+			}
+		case 1:
+			switch op {
+			case 0:
+				r, e := db.SPersist(ts, key)
+				return r, nil, e
+			case 1:
+				r, e := db.SExpire(ts, key, 100)
+				return r, nil, e
+			case 2:
+				r, e := db.SRem(ts, key, oldm)
+				return r, nil, e
+			case 3:
+				r, e := db.SClear(ts, key)
+				return r, nil, e
+			default:
+				vs, e := db.SPop(ts, key, 1)
+				if len(vs) > 0 {
+					return int64(len(vs)), vs[0], e
+				}
+				return 0, nil, e
+			}
+		case 2:
+			switch op {
+			case 0:
+				r, e := db.LPersist(ts, key)
+				return r, nil, e
+			case 1:
+				r, e := db.LExpire(ts, key, 100)
+				return r, nil, e
+			case 2:
+				bs, e := db.LPop(ts, key)
+				return 0, bs, e
+			case 3:
+				r, e := db.LClear(ts, key)
+				return r, nil, e
+			default:
+				bs, e := db.RPop(ts, key)
+				return 0, bs, e
+			}
+		default:
+			switch op {
+			case 0:
+				r, e := db.ZPersist(ts, key)
+				return r, nil, e
+			case 1:
+				r, e := db.ZExpire(ts, key, 100)
+				return r, nil, e
+			case 2:
+				r, e := db.ZRem(ts, key, oldm)
+				return r, nil, e
+			case 3:
+				r, e := db.ZClear(ts, key)
+				return r, nil, e
+			default:
+				r, e := db.ZRemRangeByRank(ts, key, 0, -1)
+				return r, nil, e
+			}
+		}
+	}
+	c10ClockNotBehind(ts) // the replica's clock is not behind the log time of the command it applies
+	ra, ba, ea := step(a)
+	rb, bb, eb := step(b)
+	vsym.Assert((ea == nil) == (eb == nil), "follow-up command: same error status on expired and on absent collection")
+	vsym.Assert(ra == rb && c10SameBytes(ba, bb), "follow-up command: same reply on expired and on absent collection")
+	c10ClockNotBehind(ts)
+	// observation 1: both stores look the same (the expired collection's members are not visible)
+	c10CollSame(a, b, typ, key, "after the follow-up command")
+	// observation 2: re-creation shows nothing of the predecessor
+	ts2 := ts + 1
+	for _, v := range []*vDB{a, b} {
+		switch typ {
+		case 0:
+			_, err = v.db.HSet(ts2, false, key, newm, []byte{'2'})
+		case 1:
+			_, err = v.db.SAdd(ts2, key, newm)
+		case 2:
+			_, err = v.db.RPush(ts2, key, newm)
+		case 3:
+			_, err = v.db.ZAdd(ts2, key, common.ScorePair{Score: 2, Member: newm})
+		}
+		vsym.Assert(err == nil, "re-creation succeeds")
+	}
+	c10ClockNotBehind(ts2)
+	c10CollSame(a, b, typ, key, "after re-creation")
+	vsym.Reach("end")
+}
+
+// c10CollSame: size, enumeration and TTL of the collection are the same in both stores.
+func c10CollSame(a, b *vDB, typ int, key []byte, when string) {
+	switch typ {
+	case 0:
+		la, _ := a.db.HLen(key)
+		lb, _ := b.db.HLen(key)
+		_, xa, _ := a.db.HGetAll(key)
+		_, xb, _ := b.db.HGetAll(key)
+		ta, _ := a.db.HashTtl(key)
+		tb, _ := b.db.HashTtl(key)
+		vsym.Assert(la == lb && len(xa) == len(xb) && int64(len(xa)) == la && ta == tb, "hash: same size and ttl as on the absent-key store "+when)
+		for i := range xa {
+			if i < len(xb) {
+				vsym.Assert(c10SameBytes(xa[i].Rec.Key, xb[i].Rec.Key) && c10SameBytes(xa[i].Rec.Value, xb[i].Rec.Value), "hash: same fields as on the absent-key store "+when)
+			}
+		}
+	case 1:
+		la, _ := a.db.SCard(key)
+		lb, _ := b.db.SCard(key)
+		xa, _ := a.db.SMembers(key)
+		xb, _ := b.db.SMembers(key)
+		ta, _ := a.db.SetTtl(key)
+		tb, _ := b.db.SetTtl(key)
+		vsym.Assert(la == lb && len(xa) == len(xb) && int64(len(xa)) == la && ta == tb, "set: same size and ttl as on the absent-key store "+when)
+		for i := range xa {
+			if i < len(xb) {
+				vsym.Assert(c10SameBytes(xa[i], xb[i]), "set: same members as on the absent-key store "+when)
+			}
+		}
+	case 2:
+		la, _ := a.db.LLen(key)
+		lb, _ := b.db.LLen(key)
+		xa, _ := a.db.LRange(key, 0, -1)
+		xb, _ := b.db.LRange(key, 0, -1)
+		ta, _ := a.db.ListTtl(key)
+		tb, _ := b.db.ListTtl(key)
+		vsym.Assert(la == lb && len(xa) == len(xb) && int64(len(xa)) == la && ta == tb, "list: same size and ttl as on the absent-key store "+when)
+		for i := range xa {
+			if i < len(xb) {
+				vsym.Assert(c10SameBytes(xa[i], xb[i]), "list: same elements as on the absent-key store "+when)
+			}
+		}
+	case 3:
+		la, _ := a.db.ZCard(key)
+		lb, _ := b.db.ZCard(key)
+		xa, _ := a.db.ZRange(key, 0, -1)
+		xb, _ := b.db.ZRange(key, 0, -1)
+		ta, _ := a.db.ZSetTtl(key)
+		tb, _ := b.db.ZSetTtl(key)
+		vsym.Assert(la == lb && len(xa) == len(xb) && int64(len(xa)) == la && ta == tb, "zset: same size and ttl as on the absent-key store "+when)
+		for i := range xa {
+			if i < len(xb) {
+				vsym.Assert(c10SameBytes(xa[i].Member, xb[i].Member) && xa[i].Score == xb[i].Score, "zset: same members as on the absent-key store "+when)
+			}
+		}
+	}
+}
+
